@@ -29,8 +29,15 @@ var TheClock = &Clock{Sec: Now0, Ms: 1000}
 // Levels is the queue of skip-list levels the environment hands out (level 1 when empty).
 var Levels []int
 
+// RealClocks disables the virtual clocks (free-running race pass).
+var RealClocks bool
+
 // InstallClock points the shims at TheClock and resets it.
 func InstallClock() {
+	if RealClocks {
+		vrt.NowSec, vrt.RandInt, snowflake.VerifNowMs = nil, nil, nil
+		return
+	}
 	TheClock.Sec, TheClock.Ms, TheClock.HoldMs = Now0, 1000, false
 	vrt.NowSec = func() int64 { return TheClock.Sec }
 	Levels = nil
